@@ -3,7 +3,7 @@ import heapq
 import math
 import struct
 
-from .absint import (I, Fl, Ag, En, Sq, Pt, Top, Md, UNIT, St, Ctx, Frame, Unsupported, Diverge, PathAbort,
+from .absint import (I, Fl, Ag, En, Sq, Pt, Top, Md, UNIT, BOT, Bot, St, Ctx, Frame, Unsupported, Diverge, PathAbort,
                      INF, USIZE_MAX, ISIZE_MAX, array_len, join_states, same_state, gc_state, map_value, iter_ints, rename_vid)
 from .facts import CheckerError, const_of, decode_scalar
 from .mir import Body, kind_of, show
@@ -186,6 +186,8 @@ class Interp:
 
     def copy_fresh(self, st, v):
         """a new runtime value drawn from the same abstraction (fresh vids, same intervals)"""
+        if v is BOT:
+            raise Diverge()
         def f(i):
             n = self.ctx.mk_int(st, *st.itv[i.vid], i.ty, taint=(i.vid in st.taint))
             return n
@@ -194,6 +196,10 @@ class Interp:
     def join_vals(self, st, a, b):
         """hull of two values living in the same state (intervals only)"""
         ta, tb = type(a), type(b)
+        if ta is Bot:
+            return b
+        if tb is Bot:
+            return a
         if ta is I and tb is I:
             if a.vid == b.vid:
                 return a
@@ -574,8 +580,8 @@ class Interp:
             if op in ("Eq", "Ne", "Lt", "Le", "Gt", "Ge"):
                 return self.mkbool(st)
             raise Unsupported(f"binop {op} on {ta.__name__},{tb.__name__}")
-        la, ha = st.itv[a.vid]
-        lb, hb = st.itv[b.vid]
+        la, ha = self.eff_itv(st, a.vid)
+        lb, hb = self.eff_itv(st, b.vid)
         taint = a.vid in st.taint or b.vid in st.taint
         if op in ("Eq", "Ne", "Lt", "Le", "Gt", "Ge"):
             r = self.decide_cmp(st, op, a, b)
@@ -676,7 +682,7 @@ class Interp:
                     mlo, mhi = tlo, thi
             elif la >= 0 and lb >= 0:
                 top = (1 << max(ha.bit_length(), hb.bit_length())) - 1
-                mlo, mhi = (max(la, lb) if op == "BitOr" else 0), top
+                mlo, mhi = (max(la, lb) if op == "BitOr" else 0), min(top, ha + hb)
             else:
                 mlo, mhi = tlo, thi
         elif base in ("Shl", "Shr"):
@@ -738,6 +744,25 @@ class Interp:
                 st.prov[z.vid] = ("wrapped", (), (mlo - wl))
                 return z
         return self.ctx.mk_int(st, tlo, thi, rty, taint=taint)
+
+    def eff_itv(self, st, vid):
+        """interval of vid, tightened through relational facts when it is very wide"""
+        lo, hi = st.itv[vid]
+        if hi - lo > (1 << 40) and st.facts:
+            for (p, s), c in st.facts.items():
+                if p == vid:
+                    hs = st.itv[s][1]
+                    if hs + c < hi:
+                        hi = hs + c
+                elif s == vid:
+                    lp = st.itv[p][0]
+                    if lp - c > lo:
+                        lo = lp - c
+            if lo > hi:
+                raise Diverge()
+            if (lo, hi) != st.itv[vid]:
+                st.itv[vid] = (lo, hi)
+        return lo, hi
 
     def derive(self, st, z, facts, scale, prov, exact):
         if prov is not None:
@@ -983,9 +1008,43 @@ class Interp:
             self.retighten(st, vid)
 
     def retighten(self, st, vid, depth=0):
-        """an operand got a tighter interval: re-evaluate the arithmetic results computed from it"""
+        """an operand got a tighter interval: re-evaluate the arithmetic results computed from it,
+        and (backwards) the operands it was computed from"""
         if depth > 6:
             return
+        own = st.prov.get(vid)
+        if own and own[0] == "mul" and own[1][0] in st.itv and own[1][1] in st.itv:
+            a, b = own[1]
+            for x, k in ((a, st.itv[b]), (b, st.itv[a])):
+                if k[0] == k[1] and k[0] > 0 and x != vid:
+                    zl, zh = st.itv[vid]
+                    ol, oh = st.itv[x]
+                    nl, nh = max(ol, -((-zl) // k[0])), min(oh, zh // k[0])
+                    if nl > nh:
+                        raise Diverge()
+                    if (nl, nh) != (ol, oh):
+                        st.itv[x] = (nl, nh)
+                        self.retighten(st, x, depth + 1)
+                    break
+        if own and own[0] in ("add", "sub") and own[1][0] in st.itv and own[1][1] in st.itv:
+            a, b = own[1]
+            zl, zh = st.itv[vid]
+            la, ha = st.itv[a]
+            lb, hb = st.itv[b]
+            if own[0] == "add":
+                na = (max(la, zl - hb), min(ha, zh - lb))
+                nb = (max(lb, zl - ha), min(hb, zh - la))
+            else:
+                na = (max(la, zl + lb), min(ha, zh + hb))
+                nb = (max(lb, la - zh), min(hb, ha - zl))
+            for x, (nl, nh), (ol, oh) in ((a, na, (la, ha)), (b, nb, (lb, hb))):
+                if nl > nh:
+                    raise Diverge()
+                if (nl, nh) != (ol, oh) and x != vid:
+                    st.itv[x] = (nl, nh)
+                    if nl == nh:
+                        self.on_known(st, x, nl)
+                    self.retighten(st, x, depth + 1)
         for z, p in list(st.prov.items()):
             if p[0] in ("add", "sub", "mul") and vid in p[1] and z in st.itv:
                 a, b = p[1]
@@ -1081,11 +1140,11 @@ class Interp:
         if op == "Lt":
             self.set_itv(st, a, la, hb - 1)
             self.set_itv(st, b, st.itv[a][0] + 1, hb)
-            st.add_fact(a, b, -1)
+            self.add_fact_closed(st, a, b, -1)
         elif op == "Le":
             self.set_itv(st, a, la, hb)
             self.set_itv(st, b, st.itv[a][0], hb)
-            st.add_fact(a, b, 0)
+            self.add_fact_closed(st, a, b, 0)
         elif op == "Gt":
             self.assume_cmp(st, "Lt", b, a)
         elif op == "Ge":
@@ -1118,6 +1177,15 @@ class Interp:
             f = st.facts.get((b, a))
             if f == 0:
                 st.facts[(b, a)] = -1
+
+    def add_fact_closed(self, st, a, b, c):
+        """a - b <= c, plus one step of closure on both sides"""
+        st.add_fact(a, b, c)
+        for (p, s), d in list(st.facts.items()):
+            if s == a and p != b:
+                st.add_fact(p, b, d + c)      # p - a <= d , a - b <= c
+            elif p == b and s != a:
+                st.add_fact(a, s, c + d)      # a - b <= c , b - s <= d
 
     def exclude(self, st, vid, c):
         lo, hi = st.itv[vid]
